@@ -9,6 +9,11 @@ Inductive hcase : Type :=
 | HHist (steps : list (op * T * option T))    (* op, observed result, observed raw dump (if taken) *)
 | HNorm (g : goval) (obs : T)                 (* internal.Normalize on a Go value *)
 | HSat (c : gcrit) (d : obj) (obs : T)        (* normalise the criteria, then Criteria.Satisfy(doc) *)
+| HFault (base : list op) (o : op) (k : Z) (obs dump : T) (calls : Z)
+    (* run base from the empty database, then o with store call number k failing (k < 0: no fault);
+       observed result, raw dump afterwards, number of store calls made (compared when >= 0) *)
+| HCrash (base : list op) (o : op) (k : Z) (dump : T)
+    (* run base, then o interrupted at store call k (k < 0: not interrupted); raw dump after reopening *)
 | HDocSet (d : obj) (name : bytes) (g : goval) (probe : bytes) (obs : T). (* Set then Get/Has of probe *)
 
 (* one history: stop at the first disagreement; report (index, model result, model dump if compared) *)
@@ -48,6 +53,15 @@ Definition check_case (c : hcase) : list T :=
               | Some c' => TL [TZ 0; Tbool (sat c' d)]
               | None => TL [TZ 1]
               end) obs
+  | HFault base o k obs dump calls =>
+      let db := snd (run_ops empty_db base) in
+      let '(t, st) := exec_op o (fresh_rstate db (if k <? 0 then None else Some (Z.to_nat k))) in
+      expect t obs ++ expect (T_of_kv (durable (r_db st))) dump ++
+      (if calls <? 0 then [] else expect (TZ (Z.of_nat (r_calls st))) (TZ calls))
+  | HCrash base o k dump =>
+      let db := snd (run_ops empty_db base) in
+      let '(t, st) := exec_op o (fresh_rstate db (if k <? 0 then None else Some (Z.to_nat k))) in
+      expect (T_of_kv (durable (r_db st))) dump
   | HDocSet d name g probe obs =>
       let d' := doc_set_go name g d in
       expect (TL [T_of_doc d'; Tbool (doc_has probe d'); T_of_value (doc_get probe d')]) obs
